@@ -5,7 +5,7 @@ From DD Require Import Model.Circuit Model.Query Model.TwiseCfg Model.TwiseMerge
   Spec.TwiseOk Proofs.PassLemmas Proofs.Enum Proofs.Semantics Proofs.CountsA Proofs.QueryDefs Proofs.C03Proof
   Proofs.TwiseOkProof Proofs.C09Pipeline
   Proofs.TwiseBase Proofs.TwiseSem Proofs.TwiseCfgProof Proofs.TwiseInv Proofs.TwiseAnd Proofs.TwiseOr
-  Proofs.TwiseNode Proofs.TwisePass.
+  Proofs.TwiseNode Proofs.TwisePass Proofs.Live Proofs.LiveCounts Proofs.TwiseReach.
 Import ListNotations.
 Open Scope Z_scope.
 
@@ -66,17 +66,24 @@ Definition andres_plain (i : nat) (rs : list sres) : sres :=
 Definition orres_plain (i : nat) (rs : list sres) : sres :=
   if forallb is_void rs then Void else sres_of (or_merge_all t (samples_of rs)).
 
+Lemma sres_of_not_void S : is_void (sres_of S) = false.
+Proof. unfold sres_of. now destruct (s_is_empty S). Qed.
+
+(* the node invariant is established at the reachable nodes (Proofs/TwiseReach.v): the and-merge
+   makes cached SAT calls, which are exact for live literals only *)
 Lemma plain_root : exists ps res, partial_samples d t ord_int ord_sort = Some ps /\
   nth (root C) ps None = Some res /\ NodeInv (root C) res.
 Proof.
-  apply (pass_root C n HQ NodeInv (partial_sample d t ord_int ord_sort) andres_plain orres_plain).
+  apply (pass_root_reach C n HQ NodeInv (partial_sample d t ord_int ord_sort) andres_plain orres_plain).
   - intros i ps. unfold partial_sample, partial_sample_g. change (circ d) with C. change (nv d) with n.
     destruct (nth i C FalseN); reflexivity.
-  - intros i l Hi E. now apply (lit_node C n t HQ).
-  - intros i cs rs Hi E HF. exact (and_node C n t HQ ord_int ord_sort Hord_int Hord_sort i cs rs Hi E HF).
-  - intros i cs rs Hi E HF. exact (or_node C n t HQ i cs rs Hi E HF).
-  - exact true_node.
-  - exact false_node.
+  - intros i rs. unfold andres_plain. destruct (existsb is_void rs); [reflexivity|apply sres_of_not_void].
+  - intros i rs. unfold orres_plain. destruct (forallb is_void rs); [reflexivity|apply sres_of_not_void].
+  - intros i Hz. exact Hz.
+  - intros i l Hi _ E. now apply (lit_node C n t HQ).
+  - intros i cs rs Hi HRi E HF. exact (and_node C n t HQ ord_int ord_sort Hord_int Hord_sort i cs rs Hi HRi E HF).
+  - intros i cs rs Hi _ E HF. exact (or_node C n t HQ i cs rs Hi E HF).
+  - intros i Hi _ E. now apply true_node.
 Qed.
 
 (* ---------- the root ---------- *)
@@ -122,7 +129,7 @@ Proof.
   induction Xs as [|X Xs IH]; intros S HS HX; cbn [fold_left]; cbv zeta.
   - split; [exact HS|]. split; [reflexivity|]. split; [auto|intros X []].
   - destruct (HX X (or_introl eq_refl)) as [A1 A2].
-    destruct (cover_caching_step C n HQ r W Hr (incl_refl _) S X HS A1 A2 Hrpos) as [K1 [K2 [K3 K4]]]. cbv zeta in *.
+    destruct (cover_caching_step C n HQ r W Hr (reach_root C) (incl_refl _) S X HS A1 A2 Hrpos) as [K1 [K2 [K3 K4]]]. cbv zeta in *.
     destruct (IH (cover_caching d r n S X) K1) as [G1 [G2 [G3 G4]]]; [intros Y HY; apply HX; now right|].
     cbv zeta in *. split; [exact G1|]. split; [now rewrite G2|]. split; [auto|].
     intros Y [<-|HY] Hv; [apply G3; now apply K3|now apply G4].
@@ -177,9 +184,9 @@ Proof.
           intros [->|[->|H]]; [right; apply IH; now left|now left|right; apply IH; now right]. }
         intros [->|H]; apply Hi; [now left|right; now apply IH]. }
       apply Hs. apply nodup_In. apply in_flat_map. now exists c. }
-  assert (HlitsOK : forall l, In l lits -> In l (lits_of C) /\ In (Z.abs l) W).
+  assert (HlitsOK : forall l, In l lits -> LiveLit C l /\ In (Z.abs l) W).
   { intros l Hl. apply Hlits in Hl. destruct Hl as [c [Hc Hl]]. pose proof (Hall c (Hgone c Hc)) as Hok.
-    split; [exact (CfgOK_lits C n HQ r W c Hr (incl_refl _) Hok l Hl)|now apply (ok_vars _ _ _ _ _ Hok)]. }
+    split; [exact (CfgOK_lits C n HQ r W c Hr (reach_root C) (incl_refl _) Hok l Hl)|now apply (ok_vars _ _ _ _ _ Hok)]. }
   set (k := Nat.min (Nat.min n t) (length lits)).
   destruct (fold_caching (tints lits k) new Hnew) as [F1 [F2 [F3 F4]]].
   { intros X HX. apply tints_in in HX. destruct HX as [_ HX].
@@ -244,8 +251,8 @@ Proof.
       { intros H. apply (contains_spec n c v Hwf Hv0 Hvr) in H. congruence. }
       assert (Hnn : ~ In (- v) (c_decided c)).
       { intros H. apply (contains_spec n c (- v) Hwf Hnv0 Hnvr) in H. congruence. }
-      pose proof (update_ok C n HQ r W c Hr (incl_refl _) Hok) as Hok1.
-      destruct (update_spec C n HQ r W c Hr (incl_refl _) Hok) as [Hl1 [Hn1 [m [fl [P [Hst [HInv [HP1 HP2]]]]]]]].
+      pose proof (update_ok C n HQ r W c Hr (reach_root C) (incl_refl _) Hok) as Hok1.
+      destruct (update_spec C n HQ r W c Hr (reach_root C) (incl_refl _) Hok) as [Hl1 [Hn1 [m [fl [P [Hst [HInv [HP1 HP2]]]]]]]].
       fold d in Hst, Hl1, Hn1, Hok1.
       assert (Hdec1 : c_decided (c_update d r c) = c_decided c) by (unfold c_decided; now rewrite Hl1).
       (* the literal that is added is consistent with a model of the configuration *)
@@ -264,7 +271,8 @@ Proof.
         { intros y Hy. apply (incl_witness_valid C n HQ r _ e Hr He).
           intros z Hz. apply in_app_iff in Hz. destruct Hz as [Hz|[<-|[]]]; [now apply Hinc|exact Hy]. }
         destruct (makes_unsat d v) eqn:Emu.
-        - (* answered by the core test: v is not a leaf of the circuit *)
+        - (* answered by the core test: v is not a live leaf of the circuit, so it is in no
+             configuration of the root *)
           assert (Eb : b = false).
           { unfold b, sat_propagate.
             assert (Ex : existsb (makes_unsat d) [v] = true) by (cbn [existsb]; now rewrite Emu).
@@ -273,11 +281,10 @@ Proof.
           destruct Hve as [Hve|Hve]; [|now apply Hwit].
           exfalso. unfold makes_unsat in Emu. apply andb_true_iff in Emu. destruct Emu as [_ Emu].
           apply memZ_In in Emu. change (core d) with (calculate_core C n) in Emu.
-          unfold calculate_core in Emu. apply filter_In in Emu. destruct Emu as [_ Emu].
-          apply andb_true_iff in Emu. destruct Emu as [_ Emu]. apply negb_true_iff in Emu.
-          rewrite Z.opp_involutive in Emu. apply has_lit_false in Emu.
-          apply Emu. exact (enum_lits C n HQ r Hr e v He Hve).
-        - destruct (query_spec_nc C n HQ r W c [v] Hr (incl_refl _) Hok) as [Hans _].
+          pose proof (wfq_wf C n HQ) as HWF0.
+          apply (live_not_opposed_by_core C n (wf_idx C n HWF0) (wf_nonempty C n HWF0) v); [|exact Emu].
+          exact (enum_live C n HQ r e (reach_root C) He v Hve).
+        - destruct (query_spec_nc C n HQ r W c [v] Hr (reach_root C) (incl_refl _) Hok) as [Hans _].
           { fold d. cbn [existsb]. now rewrite Emu. }
           cbv zeta in Hans. fold d in Hans. fold b in Hans.
           unfold x. destruct b.
